@@ -168,6 +168,38 @@ def r2_check_before_write(rep, ctx):
                         covered = roles
         rep.check(covered, "C17.R2", "AddUnitSystem:template-coverage", "a given mapping is checked against the template's categories and a mismatch must-raise before registration",
                   "AddUnitSystem does not reject (before registering) a mapping that misses template categories, or checks the wrong operands", node=st, fn=fn)
+    # SetTemplate...: the new template is stored only after *every* registered system was checked against it
+    st_fn = m.method(M, "SetTemplateUnitSystemByUnitsMapping")
+    scfg = CFG(st_fn.node)
+    sres = Resolver(m, st_fn)
+    tstores = [n for n, f, k in _state_writes(m, st_fn) if f == "_unit_system_template"]
+    loops = [lp for lp in own_statements(st_fn.node) if isinstance(lp, ast.For)]
+    ok_iter = False
+    for lp in loops:
+        t = sres.term(lp.iter)
+        def whole_registry(a):
+            if a in (("field", "_unit_systems"), ("call", ("field", "GetUnitSystems"), (), ())):
+                return True
+            if a[0] == "call" and a[1] in (("name", "list"), ("name", "tuple")) and len(a[2]) == 1:
+                return whole_registry(a[2][0])
+            if a[0] == "call" and a[1][0] == "attr" and a[1][2] in ("values", "items") and not a[2]:
+                return whole_registry(a[1][1])
+            return False
+        direct = all(whole_registry(a) for a in alternatives(t))
+        if direct and tstores and scfg.dominated_by_node(scfg.node_of(tstores[0]), lambda k, a, lp=lp: a is lp):
+            checks_ = [c for c in own_nodes(lp) if isinstance(c, ast.Call) and isinstance(c.func, ast.Attribute) and c.func.attr == "_CheckUnitSystemMapping"]
+            H = scfg.node_of(lp)
+            every = bool(checks_) and H not in scfg.reach(H, avoid={scfg.node_of(c) for c in checks_}, start_edges={"T"})
+            ok_iter = every
+    rep.check(ok_iter, "C17.R2", "SetTemplate:every-system-checked", "the template is stored only after a loop over all registered systems checked each of them against it",
+              "the new template can be stored without checking every registered system against it (the loop does not iterate the registry itself on every path, or skips systems): a template that a registered system does not cover is accepted",
+              node=tstores[0] if tstores else None, fn=st_fn)
+    inv_ok = False
+    for nid in scfg.nodes("test"):
+        e = scfg.ast[nid]
+        if isinstance(e, ast.Name) and e.id == "invalid_unit_systems":
+            inv_ok = scfg.must_raise_from([(nid, "T")]) and tstores and (nid, "F") in scfg.dominating_edges(scfg.node_of(tstores[0]))
+    rep.check(bool(inv_ok), "C17.R2", "SetTemplate:mismatch-must-raise", "a non-covering system must-raise InvalidTemplateError before the template is stored", "a non-covering registered system does not prevent the template from being stored", fn=st_fn)
     chk = m.method(M, "_CheckUnitSystemMapping")
     cres = Resolver(m, chk)
     rets = [r for r in own_nodes(chk.node) if isinstance(r, ast.Return) and r.value is not None]
